@@ -153,6 +153,14 @@ def check(c):
     after = pipe.predict(data) if kind != "tr" else pipe.transform(data)
     if not numpy.array_equal(numpy.asarray(before), numpy.asarray(after)):
         return dict(**{"class": "debug-changes-output"}, what="alter_pipeline_for_debugging changed the pipeline's output")
+    if isinstance(data, numpy.ndarray):
+        # the same buffer refilled in place between two calls (rows reversed): the altered pipeline follows the content
+        buf = data.copy()
+        first = numpy.asarray(pipe.predict(buf) if kind != "tr" else pipe.transform(buf))
+        buf[:] = data[::-1]
+        second = numpy.asarray(pipe.predict(buf) if kind != "tr" else pipe.transform(buf))
+        if not numpy.allclose(second, first[::-1], rtol=0, atol=1e-9):
+            return dict(**{"class": "debug-changes-output"}, what="second call on the same array object (refilled in place) does not follow its new content")
     if hasattr(pipe, "steps") and len(pipe.steps) == 2:
         d0, d1 = pipe.steps[0][1]._debug, pipe.steps[1][1]._debug
         out0 = d0.outputs.get("transform")
